@@ -23,6 +23,8 @@ def jobs(tier):
         J('h_resp_cmdt', L=260, windows=255, limit=7, gap='1/100')
         J('h_orig_bam', L=260, eps_sym=False)
         J('h_resp_bam', L=300, gap='1/20')
+    # a window of one packet and a slow originator: the whole transfer lasts longer than T2 although no single wait does
+    J('h_resp_cmdt', L=78, windows=1)
     # messages that fit into one frame
     for L in (0, 1, 8):
         J('h_orig_single', L=L)
